@@ -32,7 +32,7 @@ def shards(tier, seed):
     big = tier == 'thorough'
     exact = ['randbelow3', 'randbelow5', 'randbelow6', 'randbelow7', 'randbelow12', 'unit3', 'unit5', 'unit6', 'randrange', 'randint', 'choice4', 'choice3sec', 'perm3', 'shuffle3', 'sample_list',
              'choices_w', 'choices_cw', 'getrandbits3', 'random_fxp', 'uniform_fxp', 'randbelow_fld', 'derangement3', 'sample_range', 'perm4', 'derangement4', 'randbelow33', 'unit11']
-    out = [{'name': f'exact-{e}', 'kind': 'exact', 'fn': e, 'budget': 2500 if not big else 60000} for e in exact]
+    out = [{'name': f'exact-{e}', 'kind': 'exact', 'fn': e, 'budget': 2500 if not big else 12000} for e in exact]
     out.append({'name': 'range-m1', 'kind': 'range', 'cfg': [1, 0, False], 'reps': 40 if not big else 400})
     out.append({'name': 'range-m3t1', 'kind': 'range', 'cfg': [3, 1, False], 'reps': 6 if not big else 60})
     out.append({'name': 'range-m2t0np', 'kind': 'range', 'cfg': [2, 0, True], 'reps': 6 if not big else 60})
